@@ -504,9 +504,9 @@ def main_(argv):
         undec = [x for x in undec if not x.split(': ', 1)[-1].startswith(('front-end', 'extraction', 'verus produced'))] if all(r['why'] == 'fallback' for r in kani_viol) else undec
     wall = time.time() - t0
     # evidence
-    ev = dict(property_id=pid, tier=a.tier, seed=seed, level='proof', wall_s=round(wall, 2), violations=len(violations),
+    ev = dict(property_id=pid, tier=a.tier, seed=seed, level='proof', wall_s=round(wall, 2), violations=len(violations) + len(kani_viol),
               coverage=dict(obligations=stats['obligations'], discharged=stats['discharged'],
-                            checker_cmd='; '.join(u.get('cmd', '') for u in units if u.get('cmd')),
+                            checker_cmd='; '.join([u.get('cmd', '') for u in units if u.get('cmd')] + [r['cmd'] for r in kres]) or 'none',
                             trusted_base=trusted_base(units), samples=stats['samples'] or ['<none>'],
                             units=[dict(unit=u['unit'], status=u['status'], verus_verified=u.get('verified'), verus_errors=u.get('errors'), solver_wall_s=round(u.get('wall', 0), 2),
                                         functions_under_contract=[dict(name=f['name'], file=f['file'], lines=f['lines'], sha256=f['sha256'], rules=f['rules']) for f in (u.get('meta') or {}).get('functions', [])],
